@@ -33,6 +33,8 @@ def generate(rng, idx, tier, variant):
     sp = {'type': rng.choice(SPANS), 'n': n, 'origin': rng.choice([0, 1, 5])}
     subs = {}
     pool = rng.choice(ID_POOLS)
+    if rng.random() < 0.006:
+        n_sub, pool = 12, [f'R{j:02d}' for j in (7, 3, 11, 0, 5, 9, 1, 10, 2, 8, 4, 6)]  # a dozen submodels, ids not in sorted order
     for sid in pool[:n_sub]:
         ms = S.gen_spec(rng, 'solver', tier)
         ms['span'] = sp
